@@ -7,6 +7,7 @@ from checks.common import aff, farr, call_warn, is_num, medium_diagram
 from mc.enumerate import lattice_points, multisets_upto, distinct_permutations
 from oracles import simple as OS
 
+CALL_VARIANTS = True   # every whitelisted persim call is repeated with its arrays in another memory layout (mc/ctx.py)
 PROPERTY = "C14"
 SIGMAS = [0.1, 0.4, 1.0, 10.0]
 EPS = 2.220446049250313e-16
